@@ -10,6 +10,7 @@ import (
 	"path/filepath"
 	"sync"
 	"testing"
+	"testing/synctest"
 	"time"
 
 	golangGrpc "google.golang.org/grpc"
@@ -35,6 +36,7 @@ type grpcOp struct {
 	LeCode string `json:"lecode"`
 	LeErr  string `json:"leerr"`            // the error value of the custom limit-exceeded classifier: plain | status (itself a gRPC status of another code) | wrapped
 	Ctx    string `json:"ctx"`              // live | cancelled (while the wrapped call runs) | expired
+	Dur    string `json:"dur,omitempty"`    // "slow": the wrapped call takes two seconds (run inside a bubble)
 	OGrant *bool  `json:"ogrant,omitempty"` // chained interceptors: whether the outer layer's limiter grants
 }
 
@@ -238,9 +240,12 @@ func (st *grpcStack) run(op grpcOp) (obs J, err error) {
 		ctx, c2 = context.WithDeadline(ctx, time.Now().Add(-time.Second))
 		defer c2()
 	}
-	during := func() { // what happens to the context while the wrapped call runs
+	during := func() { // what happens to the context, and how long it takes, while the wrapped call runs
 		if op.Ctx == "cancelled" {
 			cancel()
+		}
+		if op.Dur == "slow" {
+			time.Sleep(2 * time.Second)
 		}
 	}
 	req := op.LeCode
@@ -346,7 +351,13 @@ func TestGrpcCases(t *testing.T) {
 			t.Fatal(err)
 		}
 		n++
-		obs, err := runGrpcOp(c.Cfg, c.Op)
+		var obs J
+		var err error
+		if c.Op.Dur == "slow" {
+			synctest.Test(t, func(t *testing.T) { obs, err = runGrpcOp(c.Cfg, c.Op) })
+		} else {
+			obs, err = runGrpcOp(c.Cfg, c.Op)
+		}
 		got := ""
 		if err == nil {
 			got = canonV(obs)
